@@ -7,6 +7,8 @@ R3 bond spelling: printing an order (1, 2, 3) and reading the printed prefix bac
 R4 arity: the suffix printed after Ring/Branch is the number of index symbols that follow, which are exactly the
    symbols of Q; the decoder's tables map suffix L to "read L symbols"
 R5 atoms are printed by the one atom printer that the decoder's writer uses
+R11 a written number is the number read: in both atom readers, on every path where the digits of a capture group are parsed,
+   the field that group feeds is (up to sign) the parsed number -- 'H0' is not one hydrogen, isotope 0 is not "absent"
 R10 fragments keep the input order: the graph's roots container is an append-only list walked front to back
 Not decided: that no atom or bond is dropped, merged or reordered for every spelling (parser / DFS behaviour).
 """
@@ -189,7 +191,8 @@ def run(ctx, rep):
     for owner, node, tmpl, args in templates:
         n4 += 1
         probs = []
-        a1 = args[1]
+        from rules.shared import resolve_local
+        a1 = resolve_local(owner, args[1])      # n = len(<index symbols>) bound to a local first
         if not (isinstance(a1, ast.Call) and unparse(a1.func) == "len" and isinstance(a1.args[0], ast.Name)):
             probs.append("suffix is not len(<index symbols>)")
         else:
@@ -269,6 +272,7 @@ def run(ctx, rep):
     # R9: the decoder's atom reader keeps every written field (element, isotope, charge, hydrogens, chirality mark)
     from rules import symlang
     symlang.check_reader_keeps_groups(ctx, rep, "R9")
+    symlang.check_parsed_numerals(ctx, rep, "R11")
     check_bond_symbol_table(ctx, rep)
     # R8: "every SMILES the encoder accepts with strict=True": the acceptance test is count > capacity for every atom,
     # capacity being the property that subtracts explicit hydrogens (the comparator rule of C06/Q1)
